@@ -148,6 +148,9 @@ class Packet(_with_metaclass(bisturi.packet_builder.MetaPacket, object)):
     def pack_impl(self, fragments, **k):
         k['innermost-pkt-pos'] = fragments.current_offset
 
+        # where the field that we are packing begins (a field may move
+        # the current offset before failing, like a sequence of fields)
+        offset = fragments.current_offset
         try:
             for sync in self.get_sync_before_pack_methods():
                 name = getattr(
@@ -156,16 +159,16 @@ class Packet(_with_metaclass(bisturi.packet_builder.MetaPacket, object)):
                 sync(self)
 
             for name, f, pack, _ in self.get_fields():
+                offset = fragments.current_offset
                 pack(pkt=self, fragments=fragments, **k)
         except PacketError as e:
             e.add_parent_field_and_packet(
-                fragments.current_offset, name, self.__class__.__name__
+                offset, name, self.__class__.__name__
             )
             raise
         except Exception as e:
             raise PacketError(
-                False, name, self.__class__.__name__, fragments.current_offset,
-                str(e)
+                False, name, self.__class__.__name__, offset, str(e)
             ) from None
 
         return fragments
